@@ -747,6 +747,18 @@ pub fn exec(w: &[&str], obs: &mut Obs) -> Option<String> {
                 _ => none(),
             })
         }
+        ["udcmp", y1, m1, d1, y2, m2, d2] => {
+            let a = UniformDate::from_ymd_opt(y1.parse().ok()?, m1.parse().ok()?, d1.parse().ok()?);
+            let b = UniformDate::from_ymd_opt(y2.parse().ok()?, m2.parse().ok()?, d2.parse().ok()?);
+            Some(match (a, b) {
+                (Some(a), Some(b)) => {
+                    let want = (a.year(), a.month(), a.day()).cmp(&(b.year(), b.month(), b.day()));
+                    if a.cmp(&b) != want { obs.violation("ord-lexicographic", &case(), ""); }
+                    show_ord(a.cmp(&b)).to_string()
+                }
+                _ => none(),
+            })
+        }
         ["rawcmp", y1, m1, d1, h1, y2, m2, d2, h2] => {
             let (a, b) = (raw_of(y1, m1, d1, h1)?, raw_of(y2, m2, d2, h2)?);
             Some(match (a, b) {
@@ -787,6 +799,108 @@ pub fn exec(w: &[&str], obs: &mut Obs) -> Option<String> {
                     format!("ok {}", hex(j.trim_matches('"').as_bytes()))
                 }
             })
+        }
+        [op @ ("dfromstr" | "dhfromstr" | "udfromstr" | "rawfromstr"), h] => {
+            let b = unhex(h)?;
+            let t = std::str::from_utf8(&b).ok()?;
+            Some(match *op {
+                "dfromstr" => { let r = t.parse::<Date>().ok(); if r != Date::parse(&b).ok() { obs.violation("fromstr-differs", &case(), ""); } r.map(|d| show_date(&d)).unwrap_or_else(none) }
+                "dhfromstr" => { let r = t.parse::<DateHour>().ok(); if r != DateHour::parse(&b).ok() { obs.violation("fromstr-differs", &case(), ""); } r.map(|d| show_dh(&d)).unwrap_or_else(none) }
+                "udfromstr" => { let r = t.parse::<UniformDate>().ok(); if r != UniformDate::parse(&b).ok() { obs.violation("fromstr-differs", &case(), ""); } r.map(|d| show_ud(&d)).unwrap_or_else(none) }
+                _ => { let r = t.parse::<RawDate>().ok(); if r != RawDate::parse(&b).ok() { obs.violation("fromstr-differs", &case(), ""); } r.map(|d| show_raw(&d)).unwrap_or_else(none) }
+            })
+        }
+        // the panicking constructors: equal to the _opt ones when those are Some, panic (documented) exactly when None
+        ["fromymd", y, m, d] => {
+            let (y, m, d): (i16, u8, u8) = (y.parse().ok()?, m.parse().ok()?, d.parse().ok()?);
+            let opt = Date::from_ymd_opt(y, m, d);
+            let r = guard(|| Date::from_ymd(y, m, d)).ok();
+            if r != opt { obs.violation("from-ymd-vs-opt", &case(), &format!("{:?} vs {:?}", r, opt)); }
+            Some(r.map(|d| show_date(&d)).unwrap_or_else(|| "panic".to_string()))
+        }
+        ["udfromymd", y, m, d] => {
+            let (y, m, d): (i16, u8, u8) = (y.parse().ok()?, m.parse().ok()?, d.parse().ok()?);
+            let opt = UniformDate::from_ymd_opt(y, m, d);
+            let r = guard(|| UniformDate::from_ymd(y, m, d)).ok();
+            if r != opt { obs.violation("from-ymd-vs-opt", &case(), &format!("{:?} vs {:?}", r, opt)); }
+            Some(r.map(|d| show_ud(&d)).unwrap_or_else(|| "panic".to_string()))
+        }
+        ["dhfromymdh", y, m, d, h] => {
+            let (y, m, d, h): (i16, u8, u8, u8) = (y.parse().ok()?, m.parse().ok()?, d.parse().ok()?, h.parse().ok()?);
+            let opt = DateHour::from_ymdh_opt(y, m, d, h);
+            let r = guard(|| DateHour::from_ymdh(y, m, d, h)).ok();
+            if r != opt { obs.violation("from-ymd-vs-opt", &case(), &format!("{:?} vs {:?}", r, opt)); }
+            Some(r.map(|d| show_dh(&d)).unwrap_or_else(|| "panic".to_string()))
+        }
+        ["rawfromymdh", y, m, d, h] => {
+            let (y, m, d, h): (i16, u8, u8, u8) = (y.parse().ok()?, m.parse().ok()?, d.parse().ok()?, h.parse().ok()?);
+            let opt = RawDate::from_ymdh_opt(y, m, d, h);
+            let r = guard(|| RawDate::from_ymdh(y, m, d, h)).ok();
+            if r != opt { obs.violation("from-ymd-vs-opt", &case(), &format!("{:?} vs {:?}", r, opt)); }
+            Some(r.map(|d| show_raw(&d)).unwrap_or_else(|| "panic".to_string()))
+        }
+        ["rawpds", f, y, m, d, h] => {
+            let or = raw_of(y, m, d, h)?;
+            Some(match or {
+                None => none(),
+                Some(x) => {
+                    let (t, direct) = match *f {
+                        "game" => (x.game_fmt().to_string(), PdsDateFormatter::new(x, DateFormat::DotShort).to_string()),
+                        "iso" => (x.iso_8601().to_string(), PdsDateFormatter::new(x, DateFormat::Iso8601).to_string()),
+                        _ => return None,
+                    };
+                    if t != direct { obs.violation("pds-trait-vs-formatter", &case(), &t); }
+                    format!("ok {}", hex(t.as_bytes()))
+                }
+            })
+        }
+        ["debug", y, m, d] => {
+            let od = date_of(y, m, d)?;
+            Some(match od { None => none(), Some(x) => {
+                let t = format!("{:?}", x);
+                if t != format!("Date {}", x.game_fmt()) { obs.violation("debug-fmt", &case(), &t); }
+                format!("ok {}", hex(t.as_bytes())) } })
+        }
+        ["debug", y, m, d, h] => {
+            let od = dh_of(y, m, d, h)?;
+            Some(match od { None => none(), Some(x) => {
+                let t = format!("{:?}", x);
+                if t != format!("DateHour {}", x.game_fmt()) { obs.violation("debug-fmt", &case(), &t); }
+                format!("ok {}", hex(t.as_bytes())) } })
+        }
+        ["uddebug", y, m, d] => {
+            let od = UniformDate::from_ymd_opt(y.parse().ok()?, m.parse().ok()?, d.parse().ok()?);
+            Some(match od { None => none(), Some(x) => {
+                let t = format!("{:?}", x);
+                if t != format!("UniformDate {}", x.game_fmt()) { obs.violation("debug-fmt", &case(), &t); }
+                format!("ok {}", hex(t.as_bytes())) } })
+        }
+        ["rawdebug", y, m, d, h] => {
+            let or = raw_of(y, m, d, h)?;
+            Some(match or { None => none(), Some(x) => {
+                let t = format!("{:?}", x);
+                if t != format!("RawDate {{ year: {} month: {} day: {} hour: {} }}", y, m, d, h) { obs.violation("debug-fmt", &case(), &t); }
+                format!("ok {}", hex(t.as_bytes())) } })
+        }
+        ["pcmp", ty, y1, m1, d1, h1, y2, m2, d2, h2] => {
+            fn show(o: Option<Ordering>) -> String { match o { Some(o) => show_ord(o).to_string(), None => "ok incomparable".to_string() } }
+            Some(match *ty {
+                "raw" => match (raw_of(y1, m1, d1, h1)?, raw_of(y2, m2, d2, h2)?) { (Some(a), Some(b)) => { if a.partial_cmp(&b) != Some(a.cmp(&b)) || (a < b) != (a.cmp(&b) == Ordering::Less) { obs.violation("partial-cmp", &case(), ""); } show(a.partial_cmp(&b)) } _ => none() },
+                "date" => match (date_of(y1, m1, d1)?, date_of(y2, m2, d2)?) { (Some(a), Some(b)) => { if a.partial_cmp(&b) != Some(a.cmp(&b)) || (a <= b) != (a.cmp(&b) != Ordering::Greater) { obs.violation("partial-cmp", &case(), ""); } show(a.partial_cmp(&b)) } _ => none() },
+                "datehour" => match (dh_of(y1, m1, d1, h1)?, dh_of(y2, m2, d2, h2)?) { (Some(a), Some(b)) => { if a.partial_cmp(&b) != Some(a.cmp(&b)) || (a > b) != (a.cmp(&b) == Ordering::Greater) { obs.violation("partial-cmp", &case(), ""); } show(a.partial_cmp(&b)) } _ => none() },
+                "uniform" => {
+                    let a = UniformDate::from_ymd_opt(y1.parse().ok()?, m1.parse().ok()?, d1.parse().ok()?);
+                    let b = UniformDate::from_ymd_opt(y2.parse().ok()?, m2.parse().ok()?, d2.parse().ok()?);
+                    match (a, b) { (Some(a), Some(b)) => { if a.partial_cmp(&b) != Some(a.cmp(&b)) || (a >= b) != (a.cmp(&b) != Ordering::Less) { obs.violation("partial-cmp", &case(), ""); } show(a.partial_cmp(&b)) } _ => none() }
+                }
+                _ => return None,
+            })
+        }
+        ["dateerror"] => {
+            let e = Date::parse("x").unwrap_err();
+            let src = std::error::Error::source(&e).is_none();
+            if e != jomini::common::DateError { obs.violation("dateerror", &case(), ""); }
+            Some(format!("ok {} {}", hex(e.to_string().as_bytes()), if src { "nosource" } else { "source" }))
         }
         ["fdp", v] => {
             let v: u64 = v.parse().ok()?;
@@ -1184,6 +1298,37 @@ pub fn gen(g: &mut Gen) {
         for op in ["dvisit", "dhvisit", "udvisit"] { g.emit(format!("{} {} {}", op, kind, v)); }
     }
     g.count("serde-visitors");
+
+    // 6d. the remaining public entry points: FromStr, Debug, PdsDate for RawDate, partial_cmp,
+    // the panicking constructors, DateError ---------------------------------------------------
+    g.emit("dateerror".to_string());
+    for t in visit_texts {
+        for op in ["dfromstr", "dhfromstr", "udfromstr", "rawfromstr"] { g.emit(format!("{} {}", op, hex(t.as_bytes()))); }
+    }
+    let ne = g.budget(400, 6000);
+    for i in 0..ne {
+        let (y, m, d) = rand_date(g);
+        let h = g.rng.range(0, 25);
+        // mostly valid, sometimes off the calendar
+        let (m, d) = match i % 6 { 0 => (g.rng.range(0, 14) as u32, d), 1 => (m, g.rng.range(0, 33) as u32), _ => (m, d) };
+        g.emit(format!("fromymd {} {} {}", y, m, d));
+        g.emit(format!("udfromymd {} {} {}", y, m, d));
+        g.emit(format!("dhfromymdh {} {} {} {}", y, m, d, h));
+        g.emit(format!("rawfromymdh {} {} {} {}", y, m, d, h));
+        g.emit(format!("debug {} {} {}", y, m, d));
+        g.emit(format!("debug {} {} {} {}", y, m, d, h));
+        g.emit(format!("uddebug {} {} {}", y, m, d));
+        g.emit(format!("rawdebug {} {} {} {}", y, m, d, h));
+        g.emit(format!("rawpds game {} {} {} {}", y, m, d, h));
+        g.emit(format!("rawpds iso {} {} {} {}", y, m, d, h));
+        let t = if i % 2 == 0 { format!("{}.{}.{}", y, m, d) } else { format!("{}.{:02}.{:02}.{}", y, m, d, h) };
+        for op in ["dfromstr", "dhfromstr", "udfromstr", "rawfromstr"] { g.emit(format!("{} {}", op, hex(t.as_bytes()))); }
+        let (y2, m2, d2) = if i % 5 == 0 { (y, m, d) } else { rand_date(g) };
+        let h2 = if i % 3 == 0 { h } else { g.rng.range(0, 25) };
+        for ty in ["raw", "date", "datehour", "uniform"] { g.emit(format!("pcmp {} {} {} {} {} {} {} {} {}", ty, y, m, d, h, y2, m2, d2, h2)); }
+        g.emit(format!("udcmp {} {} {} {} {} {}", y, m, d, y2, m2, d2));
+    }
+    g.count("wrappers");
 
     // 7. fast_digit_parse -----------------------------------------------------------------
     let nf = g.budget(1500, 10_000);
